@@ -9,7 +9,7 @@ INCS := $(foreach d,common theta tuple hll cpc kll req quantiles fi count sampli
 CXXFLAGS := -std=c++17 $(OPT) -g1 $(SAN) -DDATASKETCHES_VERIF $(INCS) -fno-omit-frame-pointer -Wall -Wno-unused-function -Wno-unused-variable
 SIMH := $(wildcard sim/*.hpp) $(wildcard $(REPO)/*/include/*.hpp) $(wildcard $(REPO)/*/include/*.h)
 
-BINS := store_d store_q store_m agg_theta agg_hll agg_cpc quant addagg shm heap_d heap_q heap_m agg_tuple
+BINS := store_d store_q store_m agg_theta agg_hll agg_cpc quant addagg shm heap_d heap_q heap_m agg_tuple skew_d skew_q skew_m base_d base_q base_m
 
 all: $(addprefix $(BUILD)/,$(BINS))
 
@@ -17,6 +17,16 @@ $(BUILD)/store_d: worlds/store.cpp $(SIMH) Makefile ; @mkdir -p $(BUILD) && $(CX
 $(BUILD)/store_q: worlds/store.cpp $(SIMH) Makefile ; @mkdir -p $(BUILD) && $(CXX) $(CXXFLAGS) -DGROUP_QUANT $< -o $@
 $(BUILD)/store_m: worlds/store.cpp $(SIMH) Makefile ; @mkdir -p $(BUILD) && $(CXX) $(CXXFLAGS) -DGROUP_MISC $< -o $@
 
+BASE := baseline
+INCS_BASE := $(foreach d,common theta tuple hll cpc kll req quantiles fi count sampling tdigest filters density,-I$(BASE)/$(d)/include)
+CXXFLAGS_BASE := -std=c++17 $(OPT) -g1 $(SAN) -DDATASKETCHES_VERIF -DDSIM_BASELINE $(INCS_BASE) -fno-omit-frame-pointer -w
+BASEH := $(wildcard sim/*.hpp) $(wildcard $(BASE)/*/include/*.hpp) $(wildcard $(BASE)/*/include/*.h)
+$(BUILD)/skew_d: worlds/skew.cpp $(SIMH) Makefile ; @mkdir -p $(BUILD) && $(CXX) $(CXXFLAGS) -DGROUP_DISTINCT $< -o $@
+$(BUILD)/skew_q: worlds/skew.cpp $(SIMH) Makefile ; @mkdir -p $(BUILD) && $(CXX) $(CXXFLAGS) -DGROUP_QUANT $< -o $@
+$(BUILD)/skew_m: worlds/skew.cpp $(SIMH) Makefile ; @mkdir -p $(BUILD) && $(CXX) $(CXXFLAGS) -DGROUP_MISC $< -o $@
+$(BUILD)/base_d: worlds/skew.cpp $(BASEH) Makefile ; @mkdir -p $(BUILD) && $(CXX) $(CXXFLAGS_BASE) -DGROUP_DISTINCT $< -o $@
+$(BUILD)/base_q: worlds/skew.cpp $(BASEH) Makefile ; @mkdir -p $(BUILD) && $(CXX) $(CXXFLAGS_BASE) -DGROUP_QUANT $< -o $@
+$(BUILD)/base_m: worlds/skew.cpp $(BASEH) Makefile ; @mkdir -p $(BUILD) && $(CXX) $(CXXFLAGS_BASE) -DGROUP_MISC $< -o $@
 $(BUILD)/heap_d: worlds/heap.cpp $(SIMH) Makefile ; @mkdir -p $(BUILD) && $(CXX) $(CXXFLAGS) -DGROUP_DISTINCT $< -o $@
 $(BUILD)/heap_q: worlds/heap.cpp $(SIMH) Makefile ; @mkdir -p $(BUILD) && $(CXX) $(CXXFLAGS) -DGROUP_QUANT $< -o $@
 $(BUILD)/heap_m: worlds/heap.cpp $(SIMH) Makefile ; @mkdir -p $(BUILD) && $(CXX) $(CXXFLAGS) -DGROUP_MISC $< -o $@
